@@ -24,6 +24,7 @@ type frame struct {
 	cf     *cFunc
 	regs   []Val
 	defers []deferred
+	start  *cBlock // block to start at (nil: entry); the Recover block after a recovered panic
 }
 
 func (e *Engine) get(fr *frame, o *opnd) Val {
@@ -115,9 +116,31 @@ func (e *Engine) runWithDefers(fr *frame) (res Val) {
 				panic(r)
 			}
 			e.depth = depth
-			// run deferred calls, then keep panicking (recover() is not modelled)
+			// run the deferred calls; one of them may call recover()
+			saved := e.curPanic
+			e.curPanic = gp
 			e.runDefers(fr)
-			panic(gp)
+			recovered := e.curPanic == nil
+			e.curPanic = saved
+			if !recovered {
+				panic(gp)
+			}
+			// recovered: the function returns to its caller through its Recover block (named
+			// results as they are), or with zero results when it has none
+			if fr.cf.recover != nil {
+				fr.start = fr.cf.recover
+				res = e.run(fr)
+				return
+			}
+			sig := fr.cf.fn.Signature.Results()
+			switch sig.Len() {
+			case 0:
+				res = nil
+			case 1:
+				res = e.zero(sig.At(0).Type())
+			default:
+				res = e.zero(sig)
+			}
 		}
 	}()
 	return e.run(fr)
@@ -141,6 +164,9 @@ func (e *Engine) runDefers(fr *frame) {
 func (e *Engine) run(fr *frame) Val {
 	cf := fr.cf
 	b := cf.blocks[0]
+	if fr.start != nil {
+		b = fr.start
+	}
 	var phiTmp []Val
 	for {
 		var next *cBlock
@@ -1021,6 +1047,14 @@ func (e *Engine) builtin(ci *cInstr, bi *ssa.Builtin, c *ssa.CallCommon, args []
 	case "print", "println":
 		return nil
 	case "recover":
+		// recover() in a deferred call stops the panic being handled and returns its value
+		if gp := e.curPanic; gp != nil {
+			e.curPanic = nil
+			if i, ok := gp.v.(If); ok && i.t != nil {
+				return i
+			}
+			return If{t: sentinelType, v: Str(gp.msg)}
+		}
 		return If{}
 	case "ssa:wrapnilchk":
 		if p, ok := args[0].(*Val); ok && p == nil {
